@@ -647,7 +647,10 @@ func (d *DNSFilter) enableFiltersLocked(async bool) {
 // ApplyAdditionalFiltering enhances the provided filtering settings with
 // blocked services and client-specific configurations.
 func (d *DNSFilter) ApplyAdditionalFiltering(cliAddr netip.Addr, clientID string, setts *Settings) {
-	setts.ClientIP = cliAddr
+	// An IPv4-mapped IPv6 address, e.g. one taken from a forwarding header of a
+	// trusted proxy, denotes the IPv4 client, like in the persistent-client
+	// lookup and in the access settings.
+	setts.ClientIP = cliAddr.Unmap()
 
 	d.ApplyBlockedServices(setts)
 	d.applyClientFiltering(clientID, cliAddr, setts)
